@@ -34,7 +34,9 @@ Inductive beh :=
 | BLogin (pace : Z) | BKaForever
 | BBig (n : Z)                (* status handshake whose frame declares n bytes *)
 | BCookie (age : Z) (good : bool)  (* auth cookie issued `age` s before now, right/wrong secret *)
-| BLate.
+| BLate
+| BNoRead.                  (* a status request for a response far larger than every socket buffer, by a client that
+                                does not read it until after the deadline *)
 
 Inductive lcfg := LCfg (max expiry : Z) (secret : option bytes) (timeout : Z)
                        (lim : option (Z * Z)) (proxy : option (bool * bool)) (now : Z).
@@ -141,7 +143,7 @@ Fixpoint m_return_nominal (prev : bool) (outs : list (Z * output)) : bool :=
 (* does the behaviour make a SERVED connection send at least one byte? *)
 Definition elicits (max : Z) (b : beh) : bool :=
   match b with
-  | BStatus | BProbe | BLogin _ | BKaForever | BCookie _ _ | BLate => true
+  | BStatus | BProbe | BLogin _ | BKaForever | BCookie _ _ | BLate | BNoRead => true
   | BStopAt k => 2 <=? k
   | BBig n => frame_len_ok (wrap32 max) n
   | BSilent | BDrip | BMidFrame => false
